@@ -11,12 +11,12 @@ for d in sorted(glob.glob(f'/verif/seeded/{pid}-m*') + glob.glob(f'/verif/seeded
     files.update(fs)
     tried.append("- [" + ", ".join(fs) + "] " + " ".join(str(m.get('summary', '')).split())[:330])
 extra = ("\n\nIMPORTANT: other developers already tried the following changes for this property (files touched in brackets); do NOT repeat them "
-         "or close variants of them. This is the third round: the obvious places are used up. Read the anchored files AND the code they call into "
+         "or close variants of them. This is a late round: the obvious places are used up. Read the anchored files AND the code they call into "
          "completely before choosing, and look for what is still untouched: helper functions, trait impls (Display/FromStr/From/Drop/Default/"
          "PartialEq/Ord/Serialize/Deserialize), builder methods, `?`-propagation and error conversion, iteration order, boundary values, "
          "behaviour on the second / third call or build rather than the first, combinations of two options that are each fine alone, "
          "platform paths (symlinks, relative vs absolute, trailing separators), and defaults. A change in a Cargo.toml (feature flags) or in a "
          "macro also counts as long as the property breaks, everything compiles and the existing suite passes.\n"
          + "\n".join(tried) +
-         "\n\nAlso note: the existing suite has one pre-existing failure offline (the doctest libherokubuildpack/src/download.rs download_file needs network); that one is acceptable.\n")
+         "\n\nNever use `git stash` (the stash is shared between all worktrees of /repo and other developers work in parallel); use `git diff > file`, `git apply -R` or `git checkout -- .` instead.\n\nAlso note: the existing suite has one pre-existing failure offline (the doctest libherokubuildpack/src/download.rs download_file needs network); that one is acceptable.\n")
 print(base + extra)
